@@ -353,8 +353,10 @@ def cmd_check(prop, tier, jobs, only, seed):
         'wall_s': round(time.time() - t0, 2),
         'violations': len(violations),
     }
-    os.makedirs(os.path.join(OUT, 'evidence'), exist_ok=True)
-    with open(os.path.join(OUT, 'evidence', f'{prop}.json'), 'w') as fh:
+    # a run restricted with --only covers part of the property: its evidence must not replace the full file
+    evdir = os.path.join(OUT, 'evidence') if not only else os.path.join(OUT, '.work', 'partial-evidence')
+    os.makedirs(evdir, exist_ok=True)
+    with open(os.path.join(evdir, f'{prop}.json'), 'w') as fh:
         json.dump(ev, fh, indent=1)
 
     # (f) report
